@@ -32,7 +32,7 @@ type Config struct {
 	LMTP              bool   `json:"lmtp,omitempty"`
 	MaxRecipients     int    `json:"max_rcpt,omitempty"`
 	MaxMessageBytes   int64  `json:"max_bytes,omitempty"`
-	MaxLineLength     int    `json:"max_line,omitempty"` // 0 = library default (2000)
+	MaxLineLength     int    `json:"max_line,omitempty"` // 0 = library default (2000), < 0 = no limit
 	AllowInsecureAuth bool   `json:"insecure_auth,omitempty"`
 	UTF8              bool   `json:"utf8,omitempty"`
 	RequireTLS        bool   `json:"requiretls,omitempty"`
@@ -164,8 +164,10 @@ func NewRig(cfg Config, script Script) *Rig {
 	s.LMTP = cfg.LMTP
 	s.MaxRecipients = cfg.MaxRecipients
 	s.MaxMessageBytes = cfg.MaxMessageBytes
-	if cfg.MaxLineLength != 0 {
+	if cfg.MaxLineLength > 0 {
 		s.MaxLineLength = cfg.MaxLineLength
+	} else if cfg.MaxLineLength < 0 {
+		s.MaxLineLength = 0 // no limit
 	}
 	s.AllowInsecureAuth = cfg.AllowInsecureAuth
 	s.EnableSMTPUTF8 = cfg.UTF8
